@@ -63,9 +63,10 @@ for _pid, _text, _also in [
         "theorems": {"C02": ["C02_clone_with_seeds", "C02_seeds_irrelevant"],
                      "C03": ["C03_planner_executor_correct", "C03_inplace_exact"],
                      "C05": ["C05_failed_write_not_ok", "C05_rerun_completes"],
-                     "C06": ["C06_fetch_exact"],
+                     "C06": ["C06_fetch_exact", "C06_archive_fetch_exact"],
                      "C13": ["C13_write_trace_spec"]}[_pid],
-        "suites": ["planner", "clone"], "also": _also, "rule": _CLONE_RULE, "assumes": _CLONE_ASSUMES,
+        "suites": ["planner", "clone"] + (["cliclone"] if _pid in ("C02", "C03", "C06") else []),
+        "needs_cli": _pid in ("C02", "C03", "C06"), "also": _also, "rule": _CLONE_RULE, "assumes": _CLONE_ASSUMES,
         "trusted_base": [], "level_text": _text, "level_note": _CLONE_NOTE,
     }
 
@@ -83,6 +84,154 @@ PROPS["C10"] = {
                   "stateless specification using the purity theorems of both rolling hashes) two streams with a common suffix and "
                   "a common boundary at least one window into it have identical later chunks; also under any read schedules.",
     "level_note": PROPS["C09"]["level_note"],
+}
+
+_ARCH_NOTE = ("Trusted: Coq kernel, translator (constants, magic, field numbers cross-checked between the .proto and the prost "
+              "attributes), extraction + OCaml runner, Rust harness incl. its independent protobuf writer/parser. Modelled, not "
+              "verified: header.rs, archive.rs, chunk.rs (decompress/verify rule), chunk_dictionary.rs as generated by prost 0.13 "
+              "(hand-written Gallina mirror of prost's encode/merge loops). Assumed: Blake2b-512 is a function `H` with the "
+              "stated injectivity hypotheses; brotli is an oracle; prost implements the protobuf wire format as mirrored.")
+PROPS["C07"] = {
+    "theorems": ["C07_runs_spec", "C07_requests_are_maximal_runs"],
+    "suites": ["http", "cliclone"], "needs_cli": True,
+    "rule": "cases: all 64 subsets of a 6-chunk archive and random chunk lists (adjacent, gapped, unordered) fetched by the real "
+            "HttpReader from a scripted raw-TCP server that logs every Range header; requests compared with the model and with "
+            "independently computed maximal runs; CLI clones over http with seeds/in-place compared with the expected runs. "
+            "non-trivial = >= 2 requests",
+    "assumes": ["reqwest/hyper/TCP deliver what the scripted server sends (black box between script and state machine)"],
+    "trusted_base": [],
+    "level_text": "Theorem C07_requests_are_maximal_runs (Coq): for every archive, chunk list and retry budget, without transfer "
+                  "failures the request sequence of the ChunkReader model is exactly one request per maximal run of adjacent "
+                  "chunks (runs characterised by C07_runs_spec); Range headers of the real reader compared with the model.",
+    "level_note": "Trusted: Coq kernel, extraction + runner, harness with scripted TCP server. Modelled, not verified: "
+                  "http_reader.rs, http_range_request.rs. Assumed: the HTTP transport (reqwest, hyper, TCP).",
+}
+PROPS["C08"] = {
+    "theorems": ["C08_http_items_exact", "C08_retry_resumes_at_first_missing_byte", "C08_retries_suffice", "C08_io_reader_exact"],
+    "suites": ["http", "ioread"],
+    "rule": "cases: scripted server behaviours per request (refuse, cut after k bytes incl. 0, short clean end, extra bytes, wrong "
+            "bytes, ok) x retry budgets 0..3 x chunk lists, read_chunks and read_at; local reader over a scripted file with "
+            "short reads of any size and Pending at any poll, incl. ranges past EOF; items and request logs compared with the "
+            "model. non-trivial = >= 2 requests (http) / >= 2 ranges (local)",
+    "assumes": PROPS["C07"]["assumes"],
+    "trusted_base": [],
+    "level_text": "Theorems (Coq) over the reader state-machine models: items are exactly the requested bytes in order followed by at "
+                  "most one final error, for every honest server script; every retry starts at the first byte not yet received "
+                  "and ends at the same byte; with no more failures than the retry budget everything is delivered; the local "
+                  "reader is exact under every read schedule.",
+    "level_note": PROPS["C07"]["level_note"] + " io_reader.rs modelled as well.",
+}
+PROPS["C12"] = {
+    "theorems": ["C12_input_delivery_irrelevant", "C12_ordered_stage", "C12_pipeline_deterministic",
+                 "C12_flushed_temp_file_complete", "C12_source_facts"],
+    "suites": ["compress", "clirt"], "needs_cli": True,
+    "rule": "cases: library writer run 3x per case with buffered-chunks in {1,2,3,8,64} and scripted input fragmentation, CLI "
+            "writer run 2x (file vs pipe, different buffering); all outputs must be byte-identical to each other and to the "
+            "model's archive bytes. non-trivial = archive > 200 bytes",
+    "assumes": ["futures::StreamExt::buffered yields results in submission order (FuturesOrdered; modelled by Model/Pipeline.v)",
+                "tokio fs::File: a write may still be in flight after write_all returns; flush waits for it (Model/Pipeline.v afile)",
+                "thread scheduling itself is not enumerated: the theorems quantify over all completion schedules of the model"],
+    "trusted_base": [],
+    "level_text": "Theorems (Coq): chunking does not depend on input delivery (C09), an ordered stage yields the sequential result "
+                  "under every completion schedule and window, hence the two-stage pipeline is a fixed function; a flushed temp "
+                  "file is complete when re-opened. The premises 'every concurrent stage is buffered' and 'the temp file is "
+                  "flushed' are recomputed from the source into Generated.v on every run. Partial: the tokio/futures runtime "
+                  "semantics are assumed in the model and only sampled by repeated runs.",
+    "level_note": "Trusted: Coq kernel, translator (pipeline shape, flush facts), extraction + runner, harness. Modelled: "
+                  "api/compress.rs, compress_cmd.rs. Assumed: futures `buffered` ordering, tokio blocking-pool file semantics.",
+}
+PROPS["C14"] = {
+    "theorems": ["C14_refusal_leaves_output_clone", "C14_refusal_leaves_output_compress"],
+    "suites": ["clirefuse"], "needs_cli": True,
+    "rule": "the full matrix {clone, compress} x output {absent, regular file, block device too small / large enough (hook)} x "
+            "{--force-create, --seed-output, neither} x archive {valid, invalid, pinned checksum mismatch, prefix pin, empty pin, "
+            "matching pin}: exit status, content, existence before/after, extra files; exhaustive. non-trivial = every cell",
+    "assumes": ["POSIX open(2) semantics for O_CREAT/O_EXCL/O_TRUNC", "the is_block_dev hook (cfg oll3_bita_verif) stands for a real device"],
+    "trusted_base": [],
+    "level_text": "Theorems (Coq) over the command model whose step order and OpenOptions flag expressions are regenerated from the "
+                  "source on every run: every refusal (existing output without overwrite/in-place, invalid archive, pinned header "
+                  "mismatch, device too small) ends failed with the output entry unchanged; for archive/header refusals nothing is "
+                  "opened at all. The real binary is run over the full matrix and compared with the model.",
+    "level_note": "Trusted: Coq kernel, translator (step order anchors, flag expressions), extraction + runner, harness. Modelled: "
+                  "clone_cmd.rs / compress_cmd.rs orchestration (Model/Cmd.v). Assumed: POSIX open semantics; OS effects are outside "
+                  "the proof and observed on the real binary.",
+}
+PROPS["C16"] = {
+    "theorems": ["C16_clone_effects", "C16_compress_effects"],
+    "suites": ["clitrace", "clirt", "clirefuse"], "needs_cli": True,
+    "rule": "strace -f of the real binary in all clone modes (plain, seed file, stdin seed, in place, http, verify) and compress "
+            "modes (file, stdin, force): canonical list of paths opened with write/create/truncate, unlinked or renamed inside "
+            "the scenario directory, and directory listings before/after, compared with the model's effect trace",
+    "assumes": ["files touched by dependencies outside the scenario directory (resolver, TLS roots) are read-only and filtered by path"],
+    "trusted_base": ["strace"],
+    "level_text": "Theorems (Coq) over the command model (finite case analysis re-checked against the regenerated flag expressions "
+                  "and step order): a clone opens only the output for writing, never truncates it at open, unlinks nothing; a "
+                  "successful compress creates the temp file and the archive and removes the temp file. System calls of the real "
+                  "process are compared with the model's effect trace.",
+    "level_note": PROPS["C14"]["level_note"],
+}
+PROPS["C15"] = {
+    "theorems": ["C15_open_total", "C15_open_total_any_reader", "C15_accepted_archive_safe", "C15_scan_total"],
+    "suites": ["protodec", "tryinit", "hostile", "corrupt", "http"],
+    "rule": "cases: dictionary bytes (conforming, free-form, mutated, random, nested groups around the recursion limit) through "
+            "the real prost decoder vs the model; archives with checksummed hostile fields (indexes, offsets, sizes, chunker "
+            "parameters incl. 0 and extremes, enums, missing sub-messages, dictionary size field) through Archive::try_init vs the "
+            "model; full clone pipeline (index, seed scan, fetch, decompress, verify) over hostile archives, bit flips, "
+            "truncations and misbehaving servers under catch_unwind with a watchdog. non-trivial = accepted or reaching the "
+            "later phases",
+    "assumes": ["memory safety is Rust's (#![forbid(unsafe_code)])", "panics inside dependencies (prost, brotli, reqwest) are only sampled",
+                "decompression output is bounded by the decompressor, not by source_size (see DESIGN: P8)"],
+    "trusted_base": [],
+    "level_text": "Theorems (Coq): with every potential panic an explicit outcome of the model and every loop fuelled, opening any "
+                  "byte string ends in Ok/Err; an accepted archive has a valid chunker configuration (so scanning never panics and "
+                  "terminates, C09), in-range rebuild indexes, addressable chunk ranges, and printing it succeeds. The models are "
+                  "compared with the implementation on hostile inputs; later phases are exercised under a watchdog.",
+    "level_note": _ARCH_NOTE,
+}
+PROPS["C04"] = {
+    "theorems": ["C04_header_accept_implies", "C04_header_only", "C04_pinned_header_identity", "C04_payload_tamper_safe"],
+    "suites": ["tryinit", "corrupt", "clirefuse"], "needs_cli": True,
+    "rule": "cases: every single-bit flip and every truncation length of a small archive (exhaustive), sampled flips/truncations, "
+            "payload swaps, overwrites, deletions, trailing garbage on larger ones, with and without seeds; scripted servers "
+            "returning wrong bytes, short bodies, extra bytes, cuts; --verify-header with mismatching / prefix / empty / matching "
+            "values. Oracle: error, or output identical to the source; header changes rejected at open",
+    "assumes": ["collision / second-preimage resistance of Blake2b-512 appears as explicit injectivity hypotheses", "hash length >= 8"],
+    "trusted_base": [],
+    "level_text": "Theorems (Coq): acceptance of arbitrary bytes implies the stored header hash equals the hash of the preceding "
+                  "bytes; the accepted archive depends on the header bytes only; equal (full length) header checksums imply "
+                  "byte-identical headers absent a hash collision; payload tampering: every accepted chunk went through "
+                  "decompress -> hash verification (see C04_payload_tamper_safe when present).",
+    "level_note": _ARCH_NOTE,
+}
+PROPS["C11"] = {
+    "theorems": ["C11_decode_encode_dict"],
+    "suites": ["protoenc", "compress", "clirt"], "needs_cli": True,
+    "rule": "cases: random dictionaries through prost's encoder vs the model encoder (byte exact); library and CLI writers on "
+            "generated sources/configs vs the model's archive bytes (byte exact, hash and compressed payload tables supplied by "
+            "the harness) and through an independent parser checking every clause of the property",
+    "assumes": ["prost 0.13 encodes as mirrored (validated byte for byte on every run)"],
+    "trusted_base": [],
+    "level_text": "Theorems (Coq): codec round trip for every well-formed dictionary; conformance of the writer model (descriptors "
+                  "unique by full hash, stored back to back from 0 in order of first occurrence, stored size <= source size, valid "
+                  "rebuild indexes that rebuild the source, settings recorded verbatim, header layout) when present in "
+                  "Properties/C11.v; both writers compared byte for byte with the model.",
+    "level_note": _ARCH_NOTE,
+}
+PROPS["C17"] = {
+    "theorems": ["C17_unknown_field_skipped", "C17_decode_with_leading_unknown", "C17_decode_with_trailing_unknown",
+                 "C17_conforming_archive_cloned"],
+    "suites": ["protodec", "conform", "tryinit"],
+    "rule": "cases: archives written by the harness' independent encoder with every freedom of the format (either magic, offset "
+            "slack, stored chunks permuted with gaps, raw/compressed per chunk, unknown fields of all wire types incl. groups, any "
+            "field order, packed/unpacked rebuild order, split sub-messages, overridden scalars, non-canonical varints, hash "
+            "length 4..64, zero chunks) opened, reported and cloned by the real reader locally and over http; decoder compared "
+            "with the model on all of them",
+    "assumes": ["the harness' independent encoder follows the documented format"],
+    "trusted_base": [],
+    "level_text": "Theorems (Coq): the decoder model ignores unknown fields anywhere between top-level fields and decodes every "
+                  "canonical encoding; acceptance/reporting and the clone of any archive whose index describes a source are covered "
+                  "by C15/C04/C02 theorems (archive-level clone theorem when present in Properties/C17.v).",
+    "level_note": _ARCH_NOTE,
 }
 
 HOOK_COMMITS = ["8bc8c25"]
